@@ -1,7 +1,32 @@
 use pv_validate::{c33, c34, c35, c36, c37, c38, c39, selftest};
 use pvkit::session::CheckDef;
 
+/// Seed corpus of the libFuzzer tier (harness/fuzz-validate): forged transactions of every era, each prefixed by the
+/// era byte and the byte that selects what the inputs resolve to.
+fn write_corpus(dir: &str) {
+    use proptest::strategy::{Strategy, ValueTree};
+    use proptest::test_runner::{Config, RngAlgorithm, TestRng, TestRunner};
+    std::fs::create_dir_all(dir).expect("corpus dir");
+    let mut runner = TestRunner::new_with_rng(Config::default(), TestRng::from_seed(RngAlgorithm::ChaCha, &[7u8; 32]));
+    let strat = pv_validate::gen::spec_early();
+    let mut n = 0;
+    for i in 0..600 {
+        let spec = strat.new_tree(&mut runner).expect("spec").current();
+        let Ok(f) = pv_validate::forge::forge(&spec) else { continue };
+        let era = pv_validate::forge::EraK::all().iter().position(|e| *e == spec.era).unwrap() as u8;
+        let mut data = vec![era, (i % 8) as u8];
+        data.extend(&f.tx);
+        std::fs::write(format!("{dir}/forged-{i:04}"), data).expect("write");
+        n += 1;
+    }
+    eprintln!("{n} corpus files written to {dir}");
+}
+
 fn main() {
+    if let Ok(dir) = std::env::var("PV_VALIDATE_WRITE_CORPUS") {
+        write_corpus(&dir);
+        return;
+    }
     pvkit::main(&[
         CheckDef { id: "SELFTEST", level: "exploration", run: selftest::run },
         CheckDef { id: "C33", level: "exploration", run: c33::run },
